@@ -96,6 +96,7 @@ struct GenCfg {
     bool faults = true;
     bool violations = true;
     bool allow_stdio = true;
+    bool force_violation = false; // every generated op carries a documented violation (C13 tier 3)
     bool alloc_focus = false; // C20: only emit ops from the site-directed generators
 };
 void gen_plan(Rng &r, const GenCfg &cfg, Plan &plan);
